@@ -187,7 +187,7 @@ def ex(n: ast.AST, lists: set) -> str:
     """An expression-building Python expression -> Gallina term of type `res cexpr`."""
     if isinstance(n, ast.Compare) and len(n.ops) == 1 and type(n.ops[0]) in CMPOPS:
         if isinstance(n.left, ast.Name) and n.left.id == "field" and _is_expr_value(n.comparators[0]):
-            return f"(Ok (Cmp {CMPOPS[type(n.ops[0])]} field arg))"
+            return f"(mk_cmp PA {CMPOPS[type(n.ops[0])]} field arg)"
         raise Unsupported(f"comparison operands: {dump(n)}")
     if isinstance(n, ast.BinOp) and isinstance(n.op, ast.BitAnd):
         return f"(r_and {ex(n.left, lists)} {ex(n.right, lists)})"
@@ -351,8 +351,8 @@ Require Import DS.Model.Value DS.Model.FilterExpr.
 Import ListNotations.
 
 (* _build_condition(expr, field): op = expr.op, arg = expr.value, field = pc.field(expr.column);
-   PA = does pa.array accept this Python list *)
-Definition gen_condition (PA : list value -> bool) (op : fop) (field : Z) (arg : parg) : res cexpr :=
+   PA = does pyarrow accept this Python literal (pa.scalar / pa.array) *)
+Definition gen_condition (PA : parg -> bool) (op : fop) (field : Z) (arg : parg) : res cexpr :=
   match op with
 {arms}
   end.
